@@ -1,1 +1,263 @@
-(* C18 stub: to be written *)
+(* C18 — shaped RF pulses (epgpy/rfpulse.py).
+
+   The model is written once over an abstract number interface [NumOps] and used at two
+   instances: canonical rationals [QcNum] (EXECUTED with vm_compute by the correspondence
+   check against the operator list that RFPulse(...) really builds) and the reals [RNum]
+   (theorems, with the GENERATED matrices T_op / Phi_op / E_op / P_op of Gen/*.v).
+
+   A sample of the waveform is the pair (|v|, arg v in degree) -- exactly the two numbers
+   make_pulse_sequence extracts from the complex value with np.abs / np.angle(deg=True).
+
+   Mirrors:
+     make_pulse_sequence  rfpulse.py:141-197      [make_pulse_sequence]
+     rfpulse()            rfpulse.py:104-138      [resolve_rf], [rfpulse]
+     functions.modify / default_modifier 251-347  [modify_op], [modify]
+     MultiOperator.append duration bookkeeping    [total_duration]
+     estimate_alpha / estimate_rf (constant-phase branch) 200-259
+     encode_phase         rfpulse.py:321-346      [encode_phase]                          *)
+From Coq Require Import List ZArith QArith Qcanon Reals Bool Lia.
+From Coquelicot Require Import Coquelicot.
+From EPG Require Import Scalar State Ops CInst Transition Evolution.
+Import ListNotations.
+
+Record NumOps : Type := mkNum {
+  num :> Type;
+  nofZ : Z -> num;
+  nadd : num -> num -> num;
+  nmul : num -> num -> num;
+  nopp : num -> num;
+  ndiv : num -> num -> num;
+  neqb : num -> num -> bool;
+  nltb : num -> num -> bool
+}.
+
+Definition QcNum : NumOps :=
+  mkNum Qc (fun z => Q2Qc (inject_Z z)) Qcplus Qcmult Qcopp Qcdiv Qc_eq_bool
+        (fun a b => match (a ?= b)%Qc with Lt => true | _ => false end).
+
+Definition RNum : NumOps :=
+  mkNum R IZR Rplus Rmult Ropp Rdiv
+        (fun a b => if Req_EM_T a b then true else false)
+        (fun a b => if Rlt_dec a b then true else false).
+
+Section PulseModel.
+Variable N : NumOps.
+
+(* the operators an RFPulse is made of, with the attributes the implementation stores *)
+Inductive pop : Type :=
+| PPhi (phi : N)                       (* transition.Phi(phi), duration 0 *)
+| PT (alpha phi dur : N)               (* transition.T(alpha, phi, duration=dur) *)
+| PE (tau T1 T2 g : N)                 (* evolution.E(tau, T1, T2, g, duration=0) *)
+| PP (tau g : N).                      (* evolution.P(tau, g, duration=0) *)
+
+Definition pop_duration (o : pop) : N :=
+  match o with PT _ _ d => d | _ => nofZ N 0 end.
+
+(* MultiOperator.__init__/append: self.duration = 0; self.duration += op.duration, in order *)
+Definition total_duration (ops : list pop) : N :=
+  fold_left (fun acc o => nadd N acc (pop_duration o)) ops (nofZ N 0).
+
+Definition sample : Type := (N * N)%type.      (* (|v|, arg v [degree]) *)
+
+Inductive dspec : Type :=
+| DScalar (d : N)                      (* np.isscalar(duration) *)
+| DList (ds : list N).                 (* one duration per sample *)
+
+(* durations = np.ones(nvalue) * duration / nvalue   |   np.asarray(duration) if len matches *)
+Definition sample_durations (n : nat) (dur : dspec) : option (list N) :=
+  match dur with
+  | DScalar d => Some (repeat (ndiv N (nmul N (nofZ N 1) d) (nofZ N (Z.of_nat n))) n)
+  | DList ds => if Nat.eqb (length ds) n then Some ds else None
+  end.
+
+Definition pulse_body (vals : list sample) (ds : list N) (rf : N) : list pop :=
+  map (fun vd => PT (nmul N (nmul N (nofZ N 180) (fst (fst vd))) rf) (snd (fst vd)) (snd vd))
+      (combine vals ds).
+
+(* `if offset:` -- None and 0 give no Phi pair *)
+Definition wrap_offset (offset : option N) (body : list pop) : list pop :=
+  match offset with
+  | None => body
+  | Some o => if neqb N o (nofZ N 0) then body else PPhi (nopp N o) :: body ++ [PPhi o]
+  end.
+
+(* None = ValueError (empty waveform: np.max of an empty array; a magnitude > 1; duration list of the
+   wrong length; a negative duration, rejected by Operator.__init__ of the T being built) *)
+Definition make_pulse_sequence (vals : list sample) (dur : dspec) (rf : N) (offset : option N)
+  : option (list pop) :=
+  if Nat.eqb (length vals) 0 then None
+  else if existsb (fun v => nltb N (nofZ N 1) (fst v)) vals then None
+  else match sample_durations (length vals) dur with
+       | None => None
+       | Some ds =>
+         if existsb (fun d => nltb N d (nofZ N 0)) ds then None
+         else Some (wrap_offset offset (pulse_body vals ds rf))
+       end.
+
+(* functions.default_modifier (no 'att'): an operator with duration > 0 is followed by P (g only)
+   or by E (T1 or T2 given; missing ones default to 1e10, 1e10, 0), both with duration 0 *)
+Definition dflt (d : N) (x : option N) : N := match x with Some v => v | None => d end.
+Definition big : N := nofZ N 10000000000.
+
+Definition modify_op (T1 T2 g : option N) (o : pop) : list pop :=
+  if nltb N (nofZ N 0) (pop_duration o) then
+    match T1, T2, g with
+    | None, None, None => [o]
+    | None, None, Some f => [o; PP (pop_duration o) f]
+    | _, _, _ => [o; PE (pop_duration o) (dflt big T1) (dflt big T2) (dflt (nofZ N 0) g)]
+    end
+  else [o].
+
+(* functions.modify(seq, T1=, T2=, g=, expand=False) followed by the flattening done by
+   MultiOperator.append (a MultiOperator operand is extended in place) *)
+Definition modify (T1 T2 g : option N) (ops : list pop) : list pop :=
+  flat_map (modify_op T1 T2 g) ops.
+
+(* constant-phase branch of estimate_rf: alpha / 180 / np.abs(np.sum(values)) *)
+Definition estimate_rf_const (abs_sum alpha : N) : N := ndiv N (ndiv N alpha (nofZ N 180)) abs_sum.
+
+(* rfpulse(): rf given -> used as is (alpha only stored); only alpha -> estimate_rf; none -> ValueError *)
+Definition resolve_rf (abs_sum : N) (rf alpha : option N) : option N :=
+  match rf, alpha with
+  | Some r, _ => Some r
+  | None, Some a => Some (estimate_rf_const abs_sum a)
+  | None, None => None
+  end.
+
+Definition rfpulse (vals : list sample) (dur : dspec) (rf alpha phi T1 T2 g : option N) (abs_sum : N)
+  : option (list pop) :=
+  match resolve_rf abs_sum rf alpha with
+  | None => None
+  | Some r =>
+    match make_pulse_sequence vals dur r phi with
+    | None => None
+    | Some seq =>
+      Some (match T1, T2, g with
+            | None, None, None => seq
+            | _, _, _ => modify (Some (dflt big T1)) (Some (dflt big T2)) (Some (dflt (nofZ N 0) g)) seq
+            end)
+    end
+  end.
+
+(* utils.space_to_freq: grad * 1e-6 * gamma * position *)
+Definition space_to_freq (grad gamma x : N) : N :=
+  nmul N (nmul N (nmul N grad (ndiv N (nofZ N 1) (nofZ N 1000000))) gamma) x.
+
+(* encode_phase at one spatial position x (the implementation carries the whole position array on a
+   new axis; every operator acts element-wise along it): modify(pulse, g=freqs) and the optional
+   rewinder P(pulse.duration * rewind, g=-freqs) *)
+Definition encode_phase (ops : list pop) (pulse_duration grad gamma x : N) (rewind : option N) : list pop :=
+  let f := space_to_freq grad gamma x in
+  modify None None (Some f) ops ++
+  match rewind with None => [] | Some rw => [PP (nmul N pulse_duration rw) (nopp N f)] end.
+
+(* ---- executable comparison with the observed operator list ---- *)
+Definition nabs (x : N) : N := if nltb N x (nofZ N 0) then nopp N x else x.
+Definition nleb (a b : N) : bool := negb (nltb N b a).
+(* |x - y| <= eps * (1 + |y|); eps = 0 means exact equality *)
+Definition close (eps x y : N) : bool :=
+  nleb (nabs (nadd N x (nopp N y))) (nmul N eps (nadd N (nofZ N 1) (nabs y))).
+
+Definition pop_close (eps : N) (a b : pop) : bool :=
+  match a, b with
+  | PPhi p, PPhi p' => close eps p p'
+  | PT a1 p1 d1, PT a2 p2 d2 => close eps a1 a2 && close eps p1 p2 && close eps d1 d2
+  | PE t a1 a2 g1, PE t' b1 b2 g2 => close eps t t' && close eps a1 b1 && close eps a2 b2 && close eps g1 g2
+  | PP t g1, PP t' g2 => close eps t t' && close eps g1 g2
+  | _, _ => false
+  end.
+
+Definition ops_close (eps : N) (m o : option (list pop)) : bool :=
+  match m, o with
+  | None, None => true
+  | Some a, Some b => all2 (pop_close eps) a b
+  | _, _ => false
+  end.
+
+End PulseModel.
+
+Arguments PPhi {N}. Arguments PT {N}. Arguments PE {N}. Arguments PP {N}.
+Arguments DScalar {N}. Arguments DList {N}.
+
+(* ======================= real-number semantics ======================= *)
+Local Open Scope R_scope.
+
+(* action of one operator on one phase state x, e = equilibrium entry of that phase state *)
+Definition act_coef (c : triple Cops * option (triple Cops)) (e x : triple Cops) : triple Cops :=
+  match snd c with
+  | None => sv (fst c) x
+  | Some b => tadd (sv (fst c) x) (sv b e)
+  end.
+
+Definition act (o : pop RNum) (e x : triple Cops) : triple Cops :=
+  match o with
+  | PPhi p => mv (Phi_op p) x
+  | PT a p _ => mv (T_op a p) x
+  | PE tau T1 T2 g => act_coef (E_op tau T1 T2 g) e x
+  | PP tau g => act_coef (P_op tau g) e x
+  end.
+
+(* operators are applied in list order *)
+Definition act_list (ops : list (pop RNum)) (e x : triple Cops) : triple Cops :=
+  fold_left (fun y o => act o e y) ops x.
+
+(* the same operators as operators of the state-matrix model (Model/Ops.v) *)
+Definition to_op (o : pop RNum) : op Cops :=
+  match o with
+  | PPhi p => OMatrix (Phi_op p) None
+  | PT a p _ => OMatrix (T_op a p) None
+  | PE tau T1 T2 g => OScalar (fst (E_op tau T1 T2 g)) (snd (E_op tau T1 T2 g))
+  | PP tau g => OScalar (fst (P_op tau g)) (snd (P_op tau g))
+  end.
+
+(* ordered matrix product  M_n . ... . M_1 . Id  of a list [M_1; ...; M_n] *)
+Definition mprod (ms : list (mat3 Cops)) : mat3 Cops :=
+  fold_left (fun acc m => mmul m acc) ms mid.
+
+(* opmatrix.matrix_combine_multi: mat = mats[0]; for m in mats[1:]: mat = m @ mat *)
+Definition combine_multi (ms : list (mat3 Cops)) : mat3 Cops :=
+  match ms with
+  | [] => mid
+  | h :: t => fold_left (fun acc m => mmul m acc) t h
+  end.
+
+(* matrix of a relaxation-free operator *)
+Definition mat_of (o : pop RNum) : mat3 Cops :=
+  match o with
+  | PPhi p => Phi_op p
+  | PT a p _ => T_op a p
+  | _ => mid
+  end.
+Definition is_rot (o : pop RNum) : Prop :=
+  match o with PPhi _ | PT _ _ _ => True | _ => False end.
+
+(* numpy.mod(x, m) for m > 0 : x - m * floor(x / m) *)
+Definition rmod (x m : R) : R := x - m * IZR (Int_part (x / m)).
+
+Definition e3 : triple Cops := @mk3 Cops (RtoC 0) (RtoC 0) (RtoC 1).
+
+(* estimate_alpha(values, rf), lines 200-222 *)
+Definition estimate_alpha_post (z : R) : R :=
+  let absZ := rmod (z + 1) 2 - 1 in
+  rmod (acos absZ / PI * 180 + 180) 360 - 180.
+Definition estimate_alpha (vals : list (R * R)) (rf : R) : R :=
+  let M := combine_multi (map (fun v => rotation_operator (rf * 180 * fst v) (snd v)) vals) in
+  estimate_alpha_post (fst (fz (mv M e3))).
+
+(* complex value of a sample and np.abs(np.sum(values)) *)
+Definition polar (v : R * R) : C := (fst v * cos (snd v * PI / 180), fst v * sin (snd v * PI / 180)).
+Definition csum (vals : list (R * R)) : C := fold_right Cplus (RtoC 0) (map polar vals).
+Definition estimate_rf (vals : list (R * R)) (alpha : R) : R :=
+  estimate_rf_const RNum (Cmod (csum vals)) alpha.
+
+(* constant-phase waveform: v = s * exp(i p) with a signed real amplitude s; numpy reports a negative
+   amplitude as magnitude -s and phase p +/- 180, and a zero sample with whatever phase *)
+Definition cp_sample (p s : R) (v : R * R) : Prop :=
+  fst v = Rabs s /\ (s = 0 \/ (0 < s /\ snd v = p) \/ (s < 0 /\ (snd v = p + 180 \/ snd v = p - 180))).
+Definition rsum (l : list R) : R := fold_right Rplus 0 l.
+
+Definition shift_phase (o : R) (b : pop RNum) : pop RNum :=
+  match b with
+  | PT a p d => PT a (p + o) d
+  | other => other
+  end.
